@@ -108,13 +108,13 @@ Step(c, k, cf, r) ==
             [k |-> k, c |-> IF r.v = "mech" THEN AuthOrFail(c, cf, r.mechs) ELSE Fail(c, "err")]
       [] c.pc = "authr" ->
             [k |-> k, c |-> IF r.v \in {"success", "successdata"} THEN Send(c, "open", "open3")
-                            ELSE IF r.v = "failure" THEN Fail(c, "perm")
+                            ELSE IF r.v \in {"failure", "failuretext"} THEN Fail(c, "perm")
                             ELSE Fail(c, "err")]
       [] c.pc = "open3" ->
             [k |-> k, c |-> IF r.v \in {"close", "bad"} THEN Fail(c, "err") ELSE AfterAuthFeatures(c, k, r.v, cf)]
       [] c.pc = "resr" ->
             IF r.v = "resumed" THEN [k |-> k, c |-> [c EXCEPT !.pc = "done", !.out = "ok", !.resumed = TRUE]]
-            ELSE IF r.v \in {"failed", "faileditem"} THEN [k |-> Keep0, c |-> Send(c, "bind", "bindr")]     \* refused: always a fresh bind
+            ELSE IF r.v \in {"failed", "faileditem", "failedcond"} THEN [k |-> Keep0, c |-> Send(c, "bind", "bindr")]     \* refused: always a fresh bind
             ELSE [k |-> Keep0, c |-> Fail(c, "err")]                                                     \* other id, unexpected, closed
       [] c.pc = "bindr" ->
             [k |-> k, c |-> IF r.v = "result"
